@@ -172,7 +172,7 @@ fn pass<F: FnOnce(&mut vh::VShell, &mut Vec<(String, String)>)>(spec: &str, toks
 
 /// streams that may hang or abort are run in a forked child under a watchdog
 fn isolated(stream: &str) -> bool {
-    matches!(stream, "xenv" | "xall" | "plan" | "subst" | "xrange" | "head" | "plan1" | "bseq" | "aliasrt" | "srun")
+    matches!(stream, "xenv" | "xall" | "plan" | "subst" | "xrange" | "head" | "plan1" | "bseq" | "aliasrt" | "srun" | "jobs")
 }
 
 fn run_isolated(stream: &str, f: &[&str], timeout_ms: i32) -> String {
@@ -467,6 +467,68 @@ fn run_case(stream: &str, f: &[&str]) -> String {
                 tr.iter().map(|(l, s, vs)| format!("{}:{}:{}", hex(l), s, vs.iter().map(|x| hex(x)).collect::<Vec<_>>().join("/"))).collect::<Vec<_>>().join(",")
             }
         }),
+        "jobs" => {
+            let mut sh = vh::new_shell();
+            vh::set_wait_events(Some(vec![]));
+            let mut outs: Vec<String> = vec![];
+            let nums = |s: &str| -> Vec<i32> { if s.is_empty() || s == "-" { vec![] } else { s.split('.').filter_map(|x| x.parse().ok()).collect() } };
+            let table = |sh: &vh::VShell| -> String {
+                let t = vh::job_table(sh);
+                if t.is_empty() { return "[]".to_string(); }
+                t.iter().map(|(id, gid, pids, st, status, bg)| format!("{}:{}:{}:{}:{}:{}", id, gid,
+                    pids.iter().map(|x| x.to_string()).collect::<Vec<_>>().join("."),
+                    st.iter().map(|x| x.to_string()).collect::<Vec<_>>().join("."), status, if *bg { 1 } else { 0 })).collect::<Vec<_>>().join(",")
+            };
+            for op in f[0].split(';') {
+                let p: Vec<&str> = op.split(':').collect();
+                let mut pre = String::new();
+                match p[0] {
+                    "L" => {
+                        let gid: i32 = p[2].parse().unwrap();
+                        for pid in nums(p[3]) {
+                            sh.insert_job(gid, pid, "cmd", "Running", p[1] == "1");
+                        }
+                    }
+                    "E" => {
+                        let pid: i32 = p[2].parse().unwrap();
+                        let v: i32 = p[3].parse().unwrap_or(0);
+                        vh::push_wait_event(match p[1] {
+                            "e" => vh::ws_exited(pid, v),
+                            "k" => vh::ws_signaled(pid, v),
+                            "s" => vh::ws_stopped(pid, v),
+                            _ => vh::ws_continued(pid),
+                        });
+                    }
+                    "W" => {
+                        let gid: i32 = p[1].parse().unwrap();
+                        let pids = nums(p[2]);
+                        let cr = vh::wait_fg_job(&mut sh, gid, &pids);
+                        let rest = vh::drain_wait_events();
+                        pre = format!("W={}/{} ", cr.status, rest.len());
+                        for e in rest { vh::push_wait_event(e); }
+                    }
+                    "P" => {
+                        if !vh::job_table(&sh).is_empty() {
+                            for e in vh::drain_wait_events() { vh::park_event(&e); }
+                            vh::try_wait_bg_jobs(&mut sh);
+                        }
+                    }
+                    _ => {}
+                }
+                outs.push(format!("{}{}", pre, table(&sh)));
+            }
+            let view = {
+                let t = vh::job_table(&sh);
+                if t.is_empty() { "[]".to_string() } else {
+                    let mut v: Vec<(i32, String)> = t.iter().map(|(_, gid, pids, _, status, _)| (*gid, format!("{}:{}:{}", gid,
+                        pids.iter().map(|x| x.to_string()).collect::<Vec<_>>().join("."), if status == "Stopped" { "Stopped" } else { "Running" }))).collect();
+                    v.sort();
+                    v.into_iter().map(|x| x.1).collect::<Vec<_>>().join(",")
+                }
+            };
+            vh::set_wait_events(None);
+            format!("{}#{}", outs.join("|"), view)
+        }
         "globq" => match vh::glob_query(&unhex(f[0])) {
             Some(v) => if v.is_empty() { "[]".to_string() } else { v.iter().map(|x| hex(x)).collect::<Vec<_>>().join("/") },
             None => "!".to_string(),
